@@ -297,7 +297,28 @@ def need(stats_list, keys, what):
 
 
 # ------------------------------------------------------------------------------------------
+def model_phase(chk, name, fn):
+    """development aid (binding self-tests on mutated trees): SCHED_HIST_CACHE=<dir> re-uses the action histories of an
+    earlier model-checking phase instead of running TLC on the (tree-independent) models again"""
+    cache = os.environ.get("SCHED_HIST_CACHE")
+    path = os.path.join(cache, "%s-%s-%d.json" % (name, chk.tier, chk.seed)) if cache else None
+    if path and os.path.exists(path):
+        log("[gen] model phase skipped, histories from %s" % path)
+        chk.assumptions.append("development run: model-checking phase re-used from cache")
+        return json.load(open(path))
+    hists = fn()
+    if path:
+        os.makedirs(cache, exist_ok=True)
+        json.dump(hists, open(path, "w"))
+    return hists
+
+
 def run_uploads(chk):
+    hists = model_phase(chk, "uploads", lambda: uploads_models(chk))
+    uploads_traces(chk, hists)
+
+
+def uploads_models(chk):
     thorough = chk.tier == "thorough"
     rng = chk.rng
     cfg = "MC_Uploads_full.cfg" if thorough else "MC_Uploads.cfg"
@@ -310,6 +331,12 @@ def run_uploads(chk):
     live(chk, "Uploads", "MC_Uploads_live.cfg")
     live(chk, "Uploads", "MC_Uploads_dev_dupcounts_live.cfg", expect_violation=True)
     log("[gen] %d TLC states, %d state-cover sequences replayed" % (nstates, len(hists)))
+    return hists
+
+
+def uploads_traces(chk, hists):
+    thorough = chk.tier == "thorough"
+    rng = chk.rng
     stats = []
     res = run_and_validate(chk, UPLOAD, [upload_script(h) for h in hists], "tlc-state-cover")
     stats.append(res["stats"])
@@ -331,10 +358,14 @@ def run_uploads(chk):
 
 
 def run_fetches(chk):
+    hists = model_phase(chk, "fetches", lambda: fetches_models(chk))
+    fetches_traces(chk, hists)
+
+
+def fetches_models(chk):
     thorough = chk.tier == "thorough"
     rng = chk.rng
     cfg = "MC_Fetches_full.cfg" if thorough else "MC_Fetches.cfg"
-    life = LIFE[chk.tier]
     r, hists, nstates = dump_hists("Fetches", cfg, rng, 40000 if thorough else 1200, workers=8, timeout=1500 if thorough else 400, heap="6g")
     chk.add_model("Fetches design=>contract (%s: 2 chunks x 2 peers, limit {0,1,2}, attempt limit {1,3}, back-off 1..4, relative clocks, bounded depth)" % cfg, r,
                   "invariants TypeOK C24_Limit C24_InflightZero C24_Backoff C24_Dropped D_CounterIsInflight")
@@ -343,6 +374,13 @@ def run_fetches(chk):
         vlib.mc("Fetches", "MC_Fetches_%s.cfg" % cfgname, expect_violation=inv, workers=4, timeout=300, heap="4g")
     live(chk, "Fetches", "MC_Fetches_live_full.cfg" if thorough else "MC_Fetches_live.cfg")
     log("[gen] %d TLC states, %d state-cover sequences replayed" % (nstates, len(hists)))
+    return hists
+
+
+def fetches_traces(chk, hists):
+    thorough = chk.tier == "thorough"
+    rng = chk.rng
+    life = LIFE[chk.tier]
     stats = []
     res = run_and_validate(chk, FETCH, [fetch_script(h, life) for h in hists], "tlc-state-cover")
     stats.append(res["stats"])
